@@ -4096,6 +4096,13 @@ class Wallet(object):
                         if not value:
                             raise WalletError("Input value is zero for address %s. Import or update UTXO's first "
                                               "or import transaction as dictionary" % address)
+                        if not unlocking_script_type:
+                            # The output is not known to this wallet but its key is: the input is of the kind of that key
+                            db_key = self.session.query(DbKey).filter_by(id=key_id).scalar()
+                            witness_type = db_key.witness_type
+                            unlocking_script_type = get_unlocking_script_type(
+                                script_type_default(witness_type, multisig=self.multisig, locking_script=True),
+                                multisig=self.multisig)
 
                 amount_total_input += value
                 inp_keys, key = self._objects_by_key_id(key_id)
